@@ -25,7 +25,8 @@ def h(*parts):
 def tens_sig(t):
     q = t["quant"] or {"scale": [], "zero_point": [], "qdim": 0}
     # an absent quantisation table and an empty one denote the same thing
-    return h(t["name"], t["shape"], t["type"], q["scale"], q["zero_point"], q["qdim"] if q["scale"] else 0)
+    return h(t["name"], t["shape"], t["type"], q["scale"], q["zero_point"], q["qdim"] if q["scale"] else 0,
+             q.get("min") or [], q.get("max") or [])
 
 
 def op_sig(o):
